@@ -230,15 +230,17 @@ impl Monitor for C16 {
             }
             _ => {
                 let x = v1_case(stream, idx, seed);
-                let nontrivial = x.windows(5).any(|w| w == b"PROXY") || x.contains(&b'\r');
-                rec.case(hash_bytes(&x), nontrivial);
-                if let Ok(s) = std::str::from_utf8(&x) {
-                    agree(s, rec);
-                }
-                if matches!(spec::v1::v1_ref(&x), spec::v1::V1Ref::Accept(_)) {
-                    rec.class("oracle:v1-header", || show(&x, 80));
-                }
-                owned_v1(&x, rec);
+                spec::sib::run_v1(&x, idx, 4, |x| {
+                    let nontrivial = x.windows(5).any(|w| w == b"PROXY") || x.contains(&b'\r');
+                    rec.case(hash_bytes(x), nontrivial);
+                    if let Ok(s) = std::str::from_utf8(x) {
+                        agree(s, rec);
+                    }
+                    if matches!(spec::v1::v1_ref(x), spec::v1::V1Ref::Accept(_)) {
+                        rec.class("oracle:v1-header", || show(x, 80));
+                    }
+                    owned_v1(x, rec);
+                });
             }
         }
     }
